@@ -166,10 +166,113 @@ def per_index_frames(out, mc, pending):
             detail[ty]["enumerated_fields"] = sorted(enumerated)
             for i in missing:
                 nm = names[i] if i < len(names) else i
+                fty = field_types(src, ty).get(nm, "")
+                mk = re.match(r"^HashMap<\s*(\w+)", fty)
+                positional = bool(mk) and mk.group(1) in file_tagged_structs()
                 if i in enumerated:
                     fails.append("%s: field %s is mutated by remove(file), enumerated by the index, but not cleared on every path of clear()" % (ty, nm))
+                elif not positional:
+                    # looked up by a key that outlives a file (a type name, a string): a stale entry is found again after the rebuild
+                    fails.append("%s: field %s (%s) holds per-file facts under keys that survive the rebuild, but is not cleared on every path of clear()" % (ty, nm, fty))
                 else:
-                    detail[ty].setdefault("uncleared_but_only_looked_up_by_key", []).append(nm)
+                    # keys carry file id + position: re-analysing the same files re-creates exactly these keys and overwrites the entries
+                    detail[ty].setdefault("uncleared_but_keyed_by_file_position", []).append(nm)
+        done += 1
+    ob.witness = done > 0
+    ob.extra = {"index_types_checked": done, "sets": detail}
+    if fails:
+        ob.status = "pending"
+        ob.detail = "; ".join(sorted(set(fails)))[:700]
+        pending.append((ob, fails))
+    else:
+        ob.status = "pass"
+
+
+def _may_mutate(fn, fns, ty, seen=None):
+    """fields of *self (argument 1) that some statement of fn borrows mutably or assigns, following calls that
+    hand the whole `self` on to another method of the same type"""
+    seen = seen if seen is not None else set()
+    if fn.name in seen:
+        return set()
+    seen.add(fn.name)
+    may = set()
+    selfs = {"_1"}
+    for b in fn.blocks.values():
+        for s in b.stmts:
+            m = re.match(r"^(_\d+) = &mut \(\*_1\);$", s)
+            if m:
+                selfs.add(m.group(1))
+    for b in fn.blocks.values():
+        if b.cleanup:
+            continue
+        for s in b.stmts + [b.term or ""]:
+            for m in re.finditer(r"&mut \(\(\*_1\)\.(\d+):", s):
+                may.add(int(m.group(1)))
+            m = re.match(r"^\(\(\*_1\)\.(\d+):[^=]*\) = ", s)
+            if m:
+                may.add(int(m.group(1)))
+        t = b.term or ""
+        m = re.match(r"^.*? = ([^()]*?::)?(\w+)\((?:move |copy )(_\d+)[,)]", t)
+        if m and m.group(3) in selfs:
+            for g in fns:
+                if g.name.endswith("::" + m.group(2)) and g.args and symex.short_type(g.args[0][1]) == ty and g.args[0][1].strip().startswith("&mut"):
+                    may |= _may_mutate(g, fns, ty, seen)
+    return may
+
+
+def remove_frames(out, mc, pending):
+    """C10: for every index type, every table that clear() always empties (so it holds facts that came from files) is
+    reachable for mutation from remove(file) — a table that remove never touches keeps the removed file's entries"""
+    idx_types = lua_index_types()
+    fns_cr = mc.fns("emmylua_code_analysis", r"<impl at crates/emmylua_code_analysis/src/db_index/[^>]*>::(clear|remove)\(")
+    ob = out.add(Obligation("frames/remove_touches_what_clear_empties", "M",
+                            "for each index type: every non-scalar field that EVERY path of clear() mutates is mutated by some statement reachable from remove(file) "
+                            "(directly, in a closure, or in a method of the same type that receives self)",
+                            {"index_types": sorted(idx_types)}, []))
+    fails = []
+    detail = {}
+    done = 0
+    for ty, src in sorted(idx_types.items()):
+        if ty == "DbIndex":
+            continue
+        rel = os.path.relpath(src, "/repo")
+        meth = mc.fns("emmylua_code_analysis", r"<impl at %s[^>]*>::" % re.escape(rel))
+        rem = [f for f in meth if f.name.endswith("::remove") and f.args and symex.short_type(f.args[0][1]) == ty and len(f.args) == 2]
+        clr = [f for f in fns_cr if f.name.endswith("::clear") and f.args and symex.short_type(f.args[0][1]) == ty and len(f.args) == 1]
+        if len(rem) != 1 or len(clr) != 1:
+            fails.append("%s: remove/clear bodies not found (%d/%d)" % (ty, len(rem), len(clr)))
+            continue
+        may = _may_mutate(rem[0], meth, ty)
+        try:
+            ex = symex.Executor(fns_cr, max_visits=3)
+            paths = ex.run(clr[0])
+        except symex.Unsupported as e:
+            fails.append("%s::clear: encoding gap %s" % (ty, str(e)[:100]))
+            continue
+        must = None
+        for p in paths:
+            if p.kind != "return":
+                continue
+            t = {h[0] for h in touched_fields(ex, p)}
+            selfv = p.state.heap.get(0)
+            if isinstance(selfv, symex.Opaque):
+                for k in selfv.over:
+                    if k[0] == "field":
+                        t.add(k[1])
+            must = t if must is None else (must & t)
+        must = must or set()
+        names = srcinfo.struct_fields(src, ty)
+        body = srcinfo._body(srcinfo._strip_comments(open(src).read()), "struct", ty) or ""
+        ftypes = {}
+        for it in srcinfo._split_items(body):
+            m = re.match(r"^(?:pub(?:\([^)]*\))?\s+)?(\w+)\s*:\s*(.+)$", re.sub(r"#\[[^\]]*\]", "", it).strip(), re.S)
+            if m:
+                ftypes[m.group(1)] = m.group(2).strip()
+        scalars = {i for i, n in enumerate(names) if re.match(r"^(u8|u16|u32|u64|usize|i32|i64|bool)$", ftypes.get(n, ""))}
+        missing = sorted(must - may - scalars)
+        detail[ty] = {"clear_always_mutates": sorted(must), "remove_can_mutate": sorted(may), "scalar_fields": sorted(scalars)}
+        for i in missing:
+            fails.append("%s: table `%s` is emptied by clear() but nothing reachable from remove(file) ever mutates it" % (ty, names[i] if i < len(names) else i))
         done += 1
     ob.witness = done > 0
     ob.extra = {"index_types_checked": done, "sets": detail}
@@ -263,6 +366,222 @@ def analysis_glue(out, mc, which, pending):
         else:
             fails.append("LuaCompilation::clear_index not found")
         ob.witness = n > 0
+    if fails:
+        ob.status = "pending"
+        ob.detail = "; ".join(sorted(set(fails)))[:600]
+        pending.append((ob, fails))
+    else:
+        ob.status = "pass"
+
+
+_TAGGED = None
+
+
+def file_tagged_structs():
+    """structs of the crate that carry the id of the file they come from (`file_id: FileId`), plus FileId itself"""
+    global _TAGGED
+    if _TAGGED is None:
+        tagged = {"FileId"}
+        for root, _, files in os.walk(CA):
+            for f in files:
+                if f.endswith(".rs"):
+                    src = srcinfo._strip_comments(open(os.path.join(root, f)).read())
+                    for m in re.finditer(r"pub struct (\w+)(?:<[^>]*>)?\s*\{", src):
+                        b = srcinfo._body(src, "struct", m.group(1)) or ""
+                        if re.search(r"\bfile_id\s*:\s*FileId", b):
+                            tagged.add(m.group(1))
+        _TAGGED = tagged
+    return _TAGGED
+
+
+def field_types(src, ty):
+    body = srcinfo._body(srcinfo._strip_comments(open(src).read()), "struct", ty) or ""
+    out = {}
+    for it in srcinfo._split_items(body):
+        m = re.match(r"^(?:pub(?:\([^)]*\))?\s+)?(\w+)\s*:\s*(.+)$", re.sub(r"\s+", " ", re.sub(r"#\[[^\]]*\]", "", it)).strip())
+        if m:
+            out[m.group(1)] = m.group(2).strip()
+    return out
+
+
+def _consts(term):
+    seen, out, todo = set(), [], [term]
+    while todo:
+        t = todo.pop()
+        if t.get_id() in seen:
+            continue
+        seen.add(t.get_id())
+        if z3.is_const(t) and t.decl().kind() == z3.Z3_OP_UNINTERPRETED:
+            out.append(t)
+        todo.extend(t.children())
+    return out
+
+
+def _install_fileid_eq(ex):
+    def m_eq(ex_, st, cname, args, dest_ty, fn):
+        a = ex_.get_path(st, ex_.deref(st, args[0]), [("field", 0, "u32")])
+        b = ex_.get_path(st, ex_.deref(st, args[1]), [("field", 0, "u32")])
+        if not (isinstance(a, symex.BV) and isinstance(b, symex.BV)):
+            return NotImplemented
+        return symex.BoolV(a.term != b.term if cname.endswith("::ne") else a.term == b.term)
+    ex.models = [(r"^<(vfs::)?file_id::FileId as PartialEq>::(eq|ne)$", m_eq)] + ex.models
+
+
+def remove_prunes(out, mc, pending):
+    """C10: tables whose entries are SHARED between files (key is not a file, value is a collection of file-tagged items):
+    remove(file) must prune them with a retain whose predicate keeps exactly the items of other files."""
+    idx_types = lua_index_types()
+    tagged = file_tagged_structs()
+    ob1 = out.add(Obligation("prune/retain_predicates_filter_by_file", "M",
+                             "every closure in an index's remove(file) that compares file ids returns true exactly for items whose file id differs from the removed file "
+                             "(solver: closure(item) <=> item.file_id != file_id, for all 32-bit ids)",
+                             {"file_ids": "all u32 pairs"}, []))
+    ob2 = out.add(Obligation("prune/shared_tables_are_pruned_by_file", "M",
+                             "for every index table HashMap<K, Vec|HashSet<X>> with K not a file and X file-tagged (has a file_id, or is a FileId): some path of remove(file) "
+                             "calls retain on data reached from that table with one of the verified predicates (directly or through a wrapping retain closure)",
+                             {"loops": "2 visits per loop head"}, []))
+    fails1, fails2 = [], []
+    verified_total = 0
+    detail = {}
+    t0 = time.time()
+    for ty, src in sorted(idx_types.items()):
+        if ty == "DbIndex":
+            continue
+        rel = os.path.relpath(src, "/repo")
+        meth = mc.fns("emmylua_code_analysis", r"<impl at %s[^>]*>::" % re.escape(rel))
+        rem = [f for f in meth if f.name.endswith("::remove") and f.args and symex.short_type(f.args[0][1]) == ty and len(f.args) == 2]
+        if len(rem) != 1:
+            fails2.append("%s: remove body not found" % ty)
+            continue
+        clos = [f for f in meth if f.name.startswith(rem[0].name + "::{closure")]
+        verified = set()
+        for c in clos:
+            if not any(re.search(r"FileId as PartialEq>::(eq|ne)", b.term or "") for b in c.blocks.values()):
+                continue
+            ex = symex.Executor(meth, max_visits=2)
+            _install_fileid_eq(ex)
+            paths = ex.run(c)
+            ok = len(paths) == 1 and paths[0].kind == "return" and isinstance(paths[0].ret, symex.BoolV)
+            if ok:
+                r = paths[0].ret.term
+                cs = _consts(r)
+                org = {str(x): ex.origin.get(x.decl().name(), "") for x in cs}
+                cap = [x for x in cs if "(arg,1)" in org[str(x)]]
+                item = [x for x in cs if "(arg,1)" not in org[str(x)]]
+                if len(cs) == 2 and len(cap) == 1 and len(item) == 1:
+                    res, _ = mc.check(list(paths[0].pc) + [z3.Not(r == (item[0] != cap[0]))], "retain_pred")
+                    ok = res == "unsat"
+                else:
+                    ok = False
+            ob1.functions.append(c.name)
+            if ok:
+                verified.add(c.name)
+                verified_total += 1
+            else:
+                fails1.append("%s: predicate %s does not keep exactly the items of other files" % (ty, c.name.split("::remove")[-1]))
+        # which tables need pruning
+        body = srcinfo._body(srcinfo._strip_comments(open(src).read()), "struct", ty) or ""
+        names = srcinfo.struct_fields(src, ty)
+        needs = []
+        for it in srcinfo._split_items(body):
+            m = re.match(r"^(?:pub(?:\([^)]*\))?\s+)?(\w+)\s*:\s*HashMap<(.+)>$", re.sub(r"\s+", " ", re.sub(r"#\[[^\]]*\]", "", it)).strip())
+            if not m:
+                continue
+            kv = srcinfo._split_items(m.group(2))
+            if len(kv) != 2 or "FileId" in kv[0] or "InFiled" in kv[0]:
+                continue
+            mv = re.match(r"^(?:Vec|HashSet)<\s*(\w+)", kv[1].strip())
+            if mv and mv.group(1) in tagged:
+                needs.append((names.index(m.group(1)), m.group(1), kv[1].strip()))
+        detail[ty] = {"verified_predicates": sorted(v.split("::remove")[-1] for v in verified), "shared_tables": [n for _, n, _ in needs]}
+        if not needs:
+            continue
+        ex = symex.Executor(meth, max_visits=2)
+        paths = ex.run(rem[0])
+        pruned = set()
+        for p in paths:
+            for e in p.trace:
+                if not re.search(r"::retain(::<.*)?$", e["callee"]) or len(e["args"]) < 2:
+                    continue
+                cf = ex.closure_fn(e["args"][1])
+                if cf is None:
+                    continue
+                good = cf.name in verified or any(v.startswith(cf.name + "::{closure") for v in verified)
+                if not good:
+                    continue
+                for i, n, _ in needs:
+                    if "(((arg,1),*),%d)" % i in e["akeys"][0]:
+                        pruned.add(i)
+        for i, n, vt in needs:
+            if i not in pruned:
+                fails2.append("%s: entries of `%s` (%s) are shared between files but remove(file) never filters them by file" % (ty, n, vt))
+    ob1.witness = verified_total > 0
+    ob2.witness = any(d["shared_tables"] for d in detail.values())
+    ob1.extra = {"verified_predicates": verified_total}
+    ob2.extra = {"tables": detail}
+    ob1.solver_s = ob2.solver_s = round(time.time() - t0, 2)
+    for ob, fails in ((ob1, fails1), (ob2, fails2)):
+        if fails:
+            ob.status = "pending"
+            ob.detail = "; ".join(sorted(set(fails)))[:700]
+            pending.append((ob, fails))
+        else:
+            ob.status = "pass"
+
+
+def update_glue(out, mc, pending):
+    """EmmyLuaAnalysis::update_file_by_uri / update_remote_file_by_uri: whatever the new text is, the file's old facts are
+    dropped (remove_index of exactly the id the VFS returned) and, when there is a text, the file is analysed again"""
+    fns = mc.fns("emmylua_code_analysis", r"lib\.rs[^>]*>::(update_file_by_uri|update_remote_file_by_uri)\(")
+    ob = out.add(Obligation("glue/update_drops_old_facts_then_reanalyses", "M",
+                            "update_file_by_uri / update_remote_file_by_uri: on every path the text reaches the VFS unchanged, remove_index is requested for exactly the "
+                            "file id the VFS returned, and update_index for the same id follows iff a text was given (None = the file is gone: nothing is re-added)",
+                            {"functions": "EmmyLuaAnalysis::update_file_by_uri, update_remote_file_by_uri", "paths": "all"}, [f.name for f in fns]))
+    fails = []
+    seen = 0
+    for nm in ("update_file_by_uri", "update_remote_file_by_uri"):
+        fn = [f for f in fns if f.name.endswith("::" + nm)]
+        if len(fn) != 1:
+            fails.append("%s: %d candidates" % (nm, len(fn)))
+            continue
+        ex = symex.Executor(fns, max_visits=2)
+        kinds = set()
+        for p in ex.run(fn[0]):
+            if p.kind != "return":
+                fails.append("%s: path kind %s" % (nm, p.kind))
+                continue
+            names = [e.get("short", e["callee"]) for e in p.trace]
+            sets = [i for i, n in enumerate(names) if re.search(r"Vfs::set_(remote_)?file_content$", n)]
+            if len(sets) != 1:
+                fails.append("%s: the VFS content is set %d times on a path" % (nm, len(sets)))
+                continue
+            S = p.trace[sets[0]]
+            if S["akeys"][2] != mflow.KeyB.argval(3).opq():
+                fails.append("%s: the text handed to the VFS is not the caller's text" % nm)
+            idk = symex.kfmt(S["result"].k) if isinstance(S["result"], symex.Opaque) else "?"
+            rem = [i for i, n in enumerate(names) if re.search(r"LuaCompilation::remove_index$", n)]
+            upd = [i for i, n in enumerate(names) if re.search(r"LuaCompilation::update_index$", n)]
+
+            def array_before(i):
+                arr = [j for j in range(i) if p.trace[j]["callee"] == "<array>"]
+                return bool(arr) and idk in p.trace[arr[-1]]["akeys"][0]
+            if len(rem) != 1 or rem[0] < sets[0] or not array_before(rem[0]):
+                fails.append("%s: the old facts of the file are not dropped exactly once, for the id the VFS returned, after the content changed" % nm)
+                continue
+            d = ex.discriminant(p.state, symex.Opaque("std::option::Option<std::string::String>", ("arg", 3)))
+            has_text = mc.implied_eq(p, d.term, 1)
+            if not has_text and not mc.implied_eq(p, d.term, 0):
+                fails.append("%s: a path does not depend on whether a text was given" % nm)
+            kinds.add(has_text)
+            if has_text:
+                if len(upd) != 1 or upd[0] < rem[0] or not array_before(upd[0]):
+                    fails.append("%s: a text was given but the file is not analysed again (once, after the removal, same id)" % nm)
+            elif upd:
+                fails.append("%s: no text (file gone) but the file is analysed again" % nm)
+            seen += 1
+        if kinds != {True, False}:
+            fails.append("%s: expected one path with and one without a text, got %s" % (nm, sorted(kinds)))
+    ob.witness = seen > 0
     if fails:
         ob.status = "pending"
         ob.detail = "; ".join(sorted(set(fails)))[:600]
